@@ -258,11 +258,14 @@ def mssm_set(p, name, m):
 
 @st.composite
 def mssm_case(draw):
-    p = draw(gen.mssm_onshell(tb=(2.0, 60.0), mino=(100.0, 3000.0), slep=(100.0, 3000.0)))
-    vary = draw(st.sampled_from(MSSM_PARAMS))
+    p = draw(gen.mssm_onshell(tb=(1.5, 60.0), mino=(100.0, 3000.0), slep=(100.0, 3000.0)))
+    vary = draw(st.sampled_from(MSSM_PARAMS + ["MA0", "MA0", "Mu", "MassWB"]))
     others = [n for n in MSSM_PARAMS if n != vary]
-    kind = draw(st.sampled_from(["eq", "eq", "eq", "sum", "diff", "double", "half"]))
-    if kind == "eq":
+    kind = draw(st.sampled_from(["eq", "eq", "eq", "eqSM", "eqSM", "sum", "diff", "double", "half"]))
+    if kind == "eqSM":
+        # the coincidences with SM masses that the property names explicitly
+        tgt = {"kind": "eq", "a": draw(st.sampled_from(["MZ", "MZ", "MW", "t"]))}
+    elif kind == "eq":
         tgt = {"kind": "eq", "a": draw(st.sampled_from(others + ["MZ", "t"]))}
     elif kind in ("sum", "diff"):
         tgt = {"kind": kind, "a": draw(st.sampled_from(others)), "b": draw(st.sampled_from(["MZ", "MW", "t"] + others))}
@@ -280,6 +283,8 @@ def prop_mssm(case):
     values = {}
     for d in DS:
         q = mssm_set(p, vary, m0 * (1.0 + d))
+        if d == 0.0 and vary == "MA0" and tgt == {"kind": "eq", "a": "MZ"}:
+            q["MA0"] = q["sm"]["MVZ"]      # bit-identical to the Z mass
         r = mssm.run_point(q, dumps=("amu", "helpers", "all"))
         if isinstance(r, (vx.Died, vx.Err)):
             return Fail("executor failure", d=d, result=repr(r))
@@ -326,7 +331,7 @@ def subchecks(ctx):
         Sub("thdm", thdm_case(), prop_thdm, {"quick": 120, "thorough": 5000}, nontrivial=lambda c: True,
             classes=lambda c: ["vary:" + c["vary"], "kind:" + c["target"]["kind"]], known_match=known_match,
             rule="THDM mass-basis point, one scalar mass moved through a coincidence target"),
-        Sub("mssm", mssm_case(), prop_mssm, {"quick": 60, "thorough": 2500}, nontrivial=lambda c: True,
+        Sub("mssm", mssm_case(), prop_mssm, {"quick": 90, "thorough": 2500}, nontrivial=lambda c: True,
             classes=lambda c: ["vary:" + c["vary"], "kind:" + c["target"]["kind"]], known_match=known_match,
             rule="MSSM on-shell point, one mass parameter moved through a coincidence target"),
     ]
